@@ -347,7 +347,7 @@ def simulate_mp(insns):
 
 
 def rule_asm_mp(ctx, R):
-    R.rule('DS-ASM-MP', 'abstract interpretation of the four hand-written dataset-read fragments on the two halves of rbp: the item is read at the unmodified ma (mt), the prefetch uses mp after the update, and the fragment leaves '
+    R.rule('DS-ASM-MP', 'abstract interpretation of the four hand-written dataset-read fragments on the two halves of rbp: the item is read at the unmodified ma (mt) and the fragment leaves '
            '(ma, mx) = (mx ^ X, ma) for v1 and (mx, ma ^ X) for v2, i.e. spec 4.6.2 steps 5-8 with mp = mx (v1) / ma (v2)', min_instances=4)
     o = ctx.obj('x86')
     frs = [('randomx_program_read_dataset', 'randomx_program_read_dataset_v2', 'v1', 'full'), ('randomx_program_read_dataset_v2', 'randomx_program_read_dataset_sshash_init', 'v2', 'full'),
@@ -356,7 +356,11 @@ def rule_asm_mp(ctx, R):
         st = simulate_mp(o.between(a, b))
         exp = dict(low='mx^X', high='ma') if ver == 'v1' else dict(low='mx', high='ma^X')
         if mode == 'full':
-            exp.update(read='ma', prefetch='mx^X' if ver == 'v1' else 'ma^X')
+            exp.update(read='ma')
+            pf = 'mx^X' if ver == 'v1' else 'ma^X'
+            if 'error' not in st and st.get('prefetch') != pf:
+                # a hint: prefetching another line costs time and changes no result
+                R.note('DS-ASM-MP: %s prefetches at %s, the line read by the next iteration is at %s (a performance matter, not a result)' % (a, st.get('prefetch'), pf))
         else:
             exp.update(item='ma')
         got = {k: st.get(k) for k in exp} if 'error' not in st else st
